@@ -743,13 +743,22 @@ func inlineOverlay(dir string, known map[string]bool, namedOnly bool) map[string
 						// statement list well-formed for the line directive that follows
 						b.WriteString("panic(0)")
 						ed = append(ed, textEdit{off(stmt.Pos()), off(stmt.End()), b.String()})
+					case "ifcond":
+						// `if [!]call {` -> `{ <expansion> \n if [!]result {` … `}`
+						if len(rnames) != 1 {
+							return
+						}
+						fmt.Fprintf(&b, "\n//line %s:%d\nif ", fileOf(ifs.Cond.Pos()), lineOf(ifs.Cond.Pos()))
+						ed = append(ed, textEdit{off(ifs.Pos()), off(ifs.Cond.Pos()), "{ " + b.String()})
+						ed = append(ed, textEdit{off(call.Pos()), off(call.End()), rnames[0]})
+						ed = append(ed, textEdit{off(ifs.End()), off(ifs.End()), " }"})
 					case "if":
 						// `if lhs tok call; cond {` -> `{ <expansion>; lhs tok results \n if cond {` … `}`
 						fmt.Fprintf(&b, "%s %s %s\n//line %s:%d\nif ", lhs, tok, rjoin, fileOf(ifs.Cond.Pos()), lineOf(ifs.Cond.Pos()))
 						ed = append(ed, textEdit{off(ifs.Pos()), off(ifs.Cond.Pos()), "{ " + b.String()})
 						ed = append(ed, textEdit{off(ifs.End()), off(ifs.End()), " }"})
 					}
-					if kind != "if" {
+					if kind != "if" && kind != "ifcond" {
 						// resynchronise the line numbering after the statement
 						endLine := lineOf(stmt.End())
 						last := &ed[len(ed)-1]
@@ -808,6 +817,23 @@ func inlineOverlay(dir string, known map[string]bool, namedOnly bool) map[string
 							}
 						}
 					case *ast.IfStmt:
+						if x.Init == nil {
+							cond := x.Cond
+							for {
+								if u, ok := cond.(*ast.UnaryExpr); ok && u.Op == token.NOT {
+									cond = u.X
+									continue
+								}
+								if pe, ok := cond.(*ast.ParenExpr); ok {
+									cond = pe.X
+									continue
+								}
+								break
+							}
+							if c, ok := cond.(*ast.CallExpr); ok {
+								try(x, c, "ifcond", "", "", x)
+							}
+						}
 						if as, ok := x.Init.(*ast.AssignStmt); ok && len(as.Rhs) == 1 && (as.Tok == token.DEFINE || as.Tok == token.ASSIGN) {
 							if c, ok := as.Rhs[0].(*ast.CallExpr); ok {
 								try(x, c, "if", string(src[off(as.Lhs[0].Pos()):off(as.Lhs[len(as.Lhs)-1].End())]), as.Tok.String(), x)
